@@ -94,6 +94,8 @@ func runC16(c *core.Ctx, r *core.Result) {
 	for _, si := range []int{1, 4, 6} {
 		items = append(items, item{si, "pFCT"})
 	}
+	// a request the address cannot afford (it holds no pXBT): rejected whole, takes no part in the bank
+	items = append(items, item{2, "pXBT"})
 	var multisets [][]item
 	var rec func(start int, cur []item)
 	rec = func(start int, cur []item) {
